@@ -1355,6 +1355,17 @@ class CodeBuilder:
         return default
 
     def get_field_default_literal(self, value: typing.Any) -> str:
+        def is_literal(v: typing.Any) -> bool:
+            if type(v) in (str, int, bool, NoneType):  # type: ignore
+                return True
+            elif type(v) is float:
+                return not math.isnan(v) and not math.isinf(v)
+            elif type(v) is tuple:
+                # repr of a tuple is a literal only if its items are
+                return all(map(is_literal, v))
+            else:
+                return False
+
         if isinstance(value, enum.IntFlag):
             return str(value.value)
         elif type(value) in (str, int, bool, NoneType):  # type: ignore
@@ -1365,7 +1376,11 @@ class CodeBuilder:
             and not math.isinf(value)
         ):
             return repr(value)
-        elif isinstance(value, tuple) and not is_named_tuple(type(value)):
+        elif (
+            isinstance(value, tuple)
+            and not is_named_tuple(type(value))
+            and is_literal(tuple(value))
+        ):
             return repr(value)
         else:
             name = f"v_{uuid.uuid4().hex}"
